@@ -244,6 +244,34 @@ theorem eval_is_token_loop {V : Type} (S : Sem V) (toks : List Tok) :
       | .err => .err
       | .panic => .panic) := run_eq_runSt S toks {}
 
+/-- **The six-stack machine is deterministic: two runs agree.**  The result of `evalInfixExp`
+(value, returned error or panic) and every intermediate stack state are a function of the
+token list and of the *pointwise behaviour* of the value semantics alone: two runs over the
+same tokens whose thirteen semantic operations (`tokenToFormulaArg`, the operator functions,
+reference resolution, `callFuncByName`, …) answer equally on every argument — not necessarily
+the same closures — end in the same outcome and pass through the same states.  The machine
+has no input besides `(tokens, Sem)`: no clock, no map iteration order, no state surviving
+from an earlier evaluation (each run starts from the empty stacks `{}`).  Over the model tied
+by the `ev` transcript; on the real code two evaluations are compared by the twice-equality
+oracles. -/
+theorem eval_tokens_deterministic {V : Type} (S T : Sem V) (toks₁ toks₂ : List Tok)
+    (htoks : toks₁ = toks₂)
+    (hofTok : ∀ t, S.ofTok t = T.ofTok t) (hneg : ∀ v, S.neg v = T.neg v)
+    (hpct : ∀ v, S.pct v = T.pct v) (hsub : ∀ a b, S.sub2 a b = T.sub2 a b)
+    (hbin : ∀ op a b, S.bin op a b = T.bin op a b) (hres : ∀ r, S.resolve r = T.resolve r)
+    (hkind : ∀ v, S.refKind v = T.refKind v) (hval : ∀ v, S.refVal v = T.refVal v)
+    (hcall : ∀ f args, S.callFn f args = T.callFn f args) (hisErr : ∀ v, S.isErr v = T.isErr v)
+    (hhead : ∀ v, S.matHead v = T.matHead v) (hmk : ∀ m, S.mkMatrix m = T.mkMatrix m)
+    (herr : S.errArg = T.errArg) :
+    evalTokens S toks₁ = evalTokens T toks₂ ∧ runSt S {} toks₁ = runSt T {} toks₂ := by
+  have hST : S = T := by
+    cases S; cases T
+    simp only [Sem.mk.injEq]
+    exact ⟨funext hofTok, funext hneg, funext hpct, funext fun a => funext (hsub a),
+      funext fun op => funext fun a => funext (hbin op a), funext hres, funext hkind,
+      funext hval, funext fun f => funext (hcall f), funext hisErr, funext hhead, funext hmk, herr⟩
+  subst hST; subst htoks; exact ⟨rfl, rfl⟩
+
 /-! ## termination on circular references ("in bounded time … circular reference chains of any shape") -/
 
 /-- **Cycle cut-off terminates.**  For EVERY reference graph (any shape, any size, any
